@@ -146,8 +146,16 @@ pub fn long_payloads(tier: Tier, alpha: &[u8]) -> Vec<Vec<u8>> {
 /// and an in-frame restart sprinkled in at fixed periods - state that accumulates over
 /// transmissions (anything counting frames, errors or bytes across boundaries) has room to wrap.
 pub fn many_frames_stream(n: usize, variant: usize) -> (Vec<u8>, Vec<Vec<u8>>) {
+    let (s, d, _) = many_frames_stream_ends(n, variant);
+    (s, d)
+}
+/// Same, also returning the offsets right after each delivered frame (transmission boundaries).
+/// Variant 3 additionally ends in three noise bytes, so that the final leftover count is exercised
+/// after many transmissions.
+pub fn many_frames_stream_ends(n: usize, variant: usize) -> (Vec<u8>, Vec<Vec<u8>>, Vec<usize>) {
     let mut s = vec![];
     let mut delivered = vec![];
+    let mut ends = vec![];
     for i in 0..n {
         let p: Vec<u8> = match (i + variant) % 5 {
             0 => vec![],
@@ -170,9 +178,13 @@ pub fn many_frames_stream(n: usize, variant: usize) -> (Vec<u8>, Vec<Vec<u8>>) {
             s.extend_from_slice(&[0x01, 0x02, 0x03]); // aborted by the next start sequence
         }
         s.extend(canon(&p));
+        ends.push(s.len());
         delivered.push(p);
     }
-    (s, delivered)
+    if variant >= 3 {
+        s.extend_from_slice(&[0x55, 0x00, 0x1b]);
+    }
+    (s, delivered, ends)
 }
 
 fn key_payload(p: &[u8]) -> String {
